@@ -353,7 +353,7 @@ def t4_loader(ctx, res):
     res.evaluations += n
     res.extra["t4_engine_checks"] = n
     for b in bad[:5]:
-        res.add_violation(f"t4:{b['kind']}:{b.get('target', '')}", f"{b['kind']} ({b.get('target', '')}) {b.get('error', '')}", dict(kind="t4", **b), True)
+        res.add_violation(f"t4:{b['kind']}:{b.get('target', '')}", f"{b['kind']} ({b.get('target', '')}) {b.get('error', '')}", dict(b, kind="t4", what=b["kind"]), True)
 
 
 def run(ctx, res):
